@@ -409,6 +409,10 @@ def desugar_adaptor_next(rec, prog, stats):
         if not kind:
             continue
         kind = kind[0]
+        if kind.endswith("Filter") and os.environ.get("VERIF_DESUGAR_FILTER") != "1":
+            # Filter::next is left as it is: the list rules (Q-pred / Q-flow of the SSR encoders, K-*) are written against the adaptor form
+            # `for e in v.iter().filter(p)`, which today's tree uses; only FilterMap (not used today) is expanded
+            continue
         a = t["args"][0]
         if a["k"] != "move" or a["place"]["proj"]:
             continue
